@@ -352,6 +352,13 @@ def execute(case):
                 objs.update(list(pairs))
             else:
                 objs.update({}, **dict(pairs))
+            if any(new is o and kk != k for k, new in pairs for kk, o in model_before):
+                # an object held under one key is handed to another existing key within the same update
+                # (transient duplicate): the region of KF-C18-2, exactly as the explicit update_permute op
+                if not after_permute:
+                    tag = "[after-permute] " + tag
+                after_permute = True
+                res.label("permute_existing")
             model[:] = shadow
             if not pairs:
                 noclaim = True
